@@ -33,6 +33,23 @@ EXCEPTIONS: Dict[Tuple[str, str], str] = {
     ("_modify.cache.ReferenceCache.get_references", "block.references"):
         "yield from the direct references: consumers are commutative (see _make_direct_refs)",
 }
+
+
+def _exception_for(q: str, text: str) -> Optional[str]:
+    """EXCEPTIONS look-up; the reviewed judgement about ReferenceCache's trees holds for the class, whichever method walks them."""
+    e = EXCEPTIONS.get((q, text))
+    if e:
+        return e
+    inner = text
+    for w in ("tuple(", "list("):
+        if inner.startswith(w) and inner.endswith(")"):
+            inner = inner[len(w):-1]
+    if q.startswith("_modify.cache.ReferenceCache.") and inner.endswith((".children", ".symbols")):
+        return ("ReferenceCache walks its reference trees in set order; the only observable result is the order in which symbols are made direct / yielded, "
+                "and every consumer of that is commutative (reviewed for _make_direct_refs, holds for any walk of the same trees)")
+    return None
+
+
 # first-match sites whose key is assumed unique (printed as an assumption, not a finding)
 ASSUMED_UNIQUE: Dict[Tuple[str, str], str] = {
     # (section lookups by name were listed here as "names are unique" until a module with two `.text` /
@@ -53,9 +70,32 @@ def scope_functions(repo: Repo) -> List[str]:
     return sorted((cone | set(extra)) - {q for q in cone if q.startswith("driver.")})
 
 
+_SET_FIELDS: Dict[int, set] = {}
+
+
+def _set_typed_fields() -> set:
+    """Names of class-level fields the package declares as `Set[...]` (dataclass fields such as Constraints.clobbers_registers)."""
+    from .. import core
+
+    repo = core.CURRENT_REPO
+    if repo is None:
+        return set()
+    if id(repo) not in _SET_FIELDS:
+        names = set()
+        for c in repo.classes.values():
+            for st in c.node.body:
+                if isinstance(st, ast.AnnAssign) and isinstance(st.target, ast.Name) and src(st.annotation).startswith(("Set[", "FrozenSet[", "AbstractSet[", "typing.Set[", "set[")):
+                    names.add(st.target.id)
+        _SET_FIELDS.clear()
+        _SET_FIELDS[id(repo)] = names
+    return _SET_FIELDS[id(repo)]
+
+
 def _is_unordered(fi: FuncInfo, e: ast.expr) -> bool:
     t = src(e)
     if UNORDERED.search(t):
+        return True
+    if isinstance(e, ast.Attribute) and e.attr in _set_typed_fields():
         return True
     # local name bound (only) to set displays / set(...) / set comprehensions
     if isinstance(e, ast.Name):
@@ -86,8 +126,13 @@ def _returns_set(call: ast.expr) -> bool:
 
 
 def _strip_wrappers(e: ast.expr) -> ast.expr:
-    while isinstance(e, ast.Call) and isinstance(e.func, ast.Name) and e.func.id in ("tuple", "list", "iter", "enumerate", "reversed") and len(e.args) >= 1:
-        e = e.args[0]
+    while isinstance(e, ast.Call) and isinstance(e.func, ast.Name):
+        if e.func.id in ("tuple", "list", "iter", "enumerate", "reversed") and len(e.args) >= 1:
+            e = e.args[0]
+        elif e.func.id in ("map", "filter") and len(e.args) == 2:
+            e = e.args[1]   # order-preserving views of their second argument
+        else:
+            break
     return e
 
 
@@ -113,6 +158,20 @@ def _body_order_effects(fi: FuncInfo, loop: ast.For) -> List[str]:
             root = recv.split(".")[0].split("[")[0]
             assigned_in_body = any(isinstance(x, ast.Assign) and any(isinstance(t, ast.Name) and t.id == root for t in x.targets) for x in body_nodes)
             if not assigned_in_body:
+                # D.setdefault(K, []).append(V) / D[K].append(V) with K depending on the loop element and V not: every
+                # element feeds its *own* list (or none twice), so the set order decides nothing inside any list
+                recv_node = n.func.value
+                kexpr = None
+                if isinstance(recv_node, ast.Call) and isinstance(recv_node.func, ast.Attribute) and recv_node.func.attr == "setdefault" and recv_node.args:
+                    kexpr = recv_node.args[0]
+                elif isinstance(recv_node, ast.Subscript):
+                    kexpr = recv_node.slice
+                if kexpr is not None and n.func.attr == "append" and n.args:
+                    tv = {t.id for t in ast.walk(loop.target) if isinstance(t, ast.Name)}
+                    knames = {x.id for x in ast.walk(kexpr) if isinstance(x, ast.Name)}
+                    vnames = {x.id for x in ast.walk(n.args[0]) if isinstance(x, ast.Name)}
+                    if tv & knames and not (tv & vnames):
+                        continue
                 if isinstance(n.func.value, ast.Name) and not getattr(_body_order_effects, "_busy", False):
                     _body_order_effects._busy = True  # type: ignore[attr-defined]
                     try:
@@ -134,7 +193,15 @@ def _body_order_effects(fi: FuncInfo, loop: ast.For) -> List[str]:
     assigned = {t.id for x in body_nodes if isinstance(x, ast.Assign) for t in x.targets if isinstance(t, ast.Name)}
     if assigned:
         after = False
+        # loads of a name that an enclosing comprehension binds itself are not uses of the local
+        shadowed = set()
+        for comp in ast.walk(fi.node):
+            if isinstance(comp, (ast.ListComp, ast.SetComp, ast.DictComp, ast.GeneratorExp)):
+                bound = {t.id for g in comp.generators for t in ast.walk(g.target) if isinstance(t, ast.Name)}
+                shadowed |= {id(x) for x in ast.walk(comp) if isinstance(x, ast.Name) and x.id in bound}
         for n in walk_no_nested(fi.node):
+            if id(n) in shadowed:
+                continue
             if getattr(n, "lineno", 0) > (loop.end_lineno or 0) and isinstance(n, ast.Name) and isinstance(n.ctx, ast.Load) and n.id in assigned:
                 # reassigned before use after the loop?
                 re_assigned = any(
@@ -314,7 +381,7 @@ def c11_1(ctx: Ctx):
                 if not why:
                     ctx.ok(fi, n, f"for over `{src(n.iter)[:60]}`: commutative body", key=k)
                     continue
-                exc = EXCEPTIONS.get((q, src(n.iter)))
+                exc = _exception_for(q, src(n.iter))
                 if exc:
                     ctx.ok(fi, n, f"for over `{src(n.iter)[:60]}`: exception", exc + f" [{'; '.join(why)}]", key=k, nontrivial=False)
                     continue
@@ -401,10 +468,14 @@ def c11_1(ctx: Ctx):
                     if holder is not None and _only_consumed_order_free(fi, holder, par.lineno + 1):
                         ctx.ok(fi, n, f"{fn}(`{src(a0)[:50]}`) bound to `{holder}`", "a snapshot whose every later use is order-insensitive", key=f"{q}::{fn}::{src(a0)[:60]}")
                         continue
+                    exc = _exception_for(q, src(n))
+                    if exc:
+                        ctx.ok(fi, n, f"{fn}(`{src(a0)[:50]}`): exception", exc, key=f"{q}::{fn}::{src(a0)[:60]}", nontrivial=False)
+                        continue
                     ctx.fail(fi, n, f"{fn}(`{src(a0)[:50]}`)", "materialises an unordered collection as a sequence that is used as such", key=f"{q}::{fn}::{src(a0)[:60]}")
             if isinstance(n, ast.Call) and isinstance(n.func, ast.Attribute) and n.func.attr == "extend" and n.args and _is_unordered(fi, _strip_wrappers(n.args[0])):
                 n_sites += 1
-                exc = EXCEPTIONS.get((q, src(n.args[0])))
+                exc = _exception_for(q, src(n.args[0]))
                 if exc:
                     ctx.ok(fi, n, f"{src(n.func.value)}.extend(`{src(n.args[0])[:40]}`): exception", exc, key=f"{q}::extend::{src(n.args[0])[:60]}", nontrivial=False)
                     continue
